@@ -1,7 +1,7 @@
 """C07 -- pure-component and mixture enthalpy/entropy are thermodynamically consistent.
 
-Tie T: translate() regenerates coq/C07/Gen_*.v from free_energy.py, _chemical.py (_init_energies)
-and ideal_mixture_model.py on every run.  Because the translators are trusted, the correspondence
+Tie T: translate() regenerates coq/C07/Gen_*.v from free_energy.py, _chemical.py (_init_energies and the
+Sfus statement of _init_data) and ideal_mixture_model.py on every run.  Because the translators are trusted, the correspondence
 below additionally runs the generated definitions (over Q, integrals as tables, log as a rational
 stand-in) against REAL Chemical / IdealMixture objects whose heat-capacity handles are fakes that
 return the same table values."""
@@ -22,7 +22,9 @@ RULE = ('chem cases: one real Chemical per case in one of 15 configurations (Cn 
         'falsy / returning None or 0, per-phase Cn handles truthy or falsy; 4-9 queries H|S(phase in s,l,g,S,L; T in T_ref,Tm,Tb,'
         'others,None; P in multiples of P_ref, inexact, 0, negative, None).  mix cases: 2-4 such chemicals, mol vectors with zeros, '
         'negatives and a/-a pairs, observations mixture.H/S/Cn/xH/xS with and without (table) excess models.  single cases: the two '
-        'single-phase mixture models on table models.  Integrals are opaque seeded tables keyed by (phase, a, b); log is a seeded '
+        'single-phase mixture models on table models.  sfus cases: the real Chemical._init_data with the database look-ups replaced by '
+        'case values (arguments Hfus/Tm given, None or 0; database values present or None), observed: stored _Hfus, _Tm, _Sfus or the '
+        'exception.  Integrals are opaque seeded tables keyed by (phase, a, b); log is a seeded '
         'rational stand-in patched into free_energy.py and ideal_mixture_model.py.  Compared: kind of _H/_S after wiring '
         '(None/functor/PhaseHandle) or the exception of _init_energies, and per query the value (1e-9 relative) or exception class. '
         'non-trivial = at least one query returns a number; distinct = distinct case hash')
@@ -35,10 +37,12 @@ ASSUMPTIONS = [
     'float rounding is not modelled: values compared to 1e-9 relative; branch decisions (truthiness, == 0, <= 0) are exact because inputs are dyadic',
 ]
 TRUSTED = [
-    'translators tr/C07_pysubset.py, tr/C07_free_energy.py, tr/C07_init_energies.py, tr/C07_mixture_models.py (Python ast -> Gallina, fail closed)',
+    'translators tr/C07_pysubset.py, tr/C07_free_energy.py, tr/C07_init_energies.py, tr/C07_mixture_models.py, tr/C07_init_data.py '
+    '(Python ast -> Gallina, fail closed)',
     'hand-written coq/C07/Model.v: Python value/exception semantics of + - * / log, truthiness, sum([...]), SparseVector(list).dct, '
     'Functor call convention (TFunctor drops P), PhaseFunctorBuilder.__call__, PhaseTPHandle/MockPhaseTPHandle dispatch, Mixture.H/S/xH/xS '
     '(tie for these = the correspondence check)',
+    'of Chemical._init_data only the statement `self._Sfus = ...` is translated; the stored _Hfus/_Tm it reads are inputs of the model',
     'excess-energy functors (Excess_*; equation-of-state departure functions) are not translated: include_excess_energies is False by default',
 ]
 CASE_TIMEOUT = 60
